@@ -1859,6 +1859,20 @@ func catSegs(t *Term) []*Term {
 		return nil
 	case t.Op == "slice" && len(t.A) == 3 && t.A[1].Op == "none" && t.A[2].Op == "const" && t.A[2].S == "0":
 		return nil // x[:0]: make([]byte, 0, n) written with an explicit capacity
+	case t.Op == "const" && strings.HasPrefix(t.S, `"`):
+		// append(b, "lit"...): the bytes of the literal
+		return []*Term{{Op: "conv", S: "[]byte", A: []*Term{t}}}
+	case t.Op == "slice" && len(t.A) == 3 && t.A[1].Op == "none" && t.A[0].Op == "buf":
+		// make([]byte, n, cap) filled over [0:n): the view is what counts
+		if hi, ok := isIntConst(t.A[2]); ok && hi > 0 {
+			view := &Term{Op: "buf", S: strconv.FormatInt(hi, 10), A: t.A[0].A, F: t.A[0].F}
+			if c := partitionedBuf(view, int(hi), true); c != nil {
+				return catSegs(c)
+			}
+			if len(view.A) == 1 && view.F[0] == fmt.Sprintf("[0:%d]", hi) {
+				return catSegs(&Term{Op: "buf", S: view.S, A: view.A, F: []string{"[0:]"}})
+			}
+		}
 	case t.Op == "buf" && len(t.A) > 0 && t.S == strconv.Itoa(len(t.A)):
 		// every byte a constant: the same bytes as a string literal converted to []byte
 		bs := make([]byte, len(t.A))
